@@ -1,5 +1,5 @@
-"""C01 - model serialization round trip is lossless and re-importable (document level proved,
-character level differential)."""
+"""C01 - model serialization round trip is lossless and re-importable (document level proved on both stores and at the
+Topology level with a load plan regenerated from the source; character level differential)."""
 import glob
 import json
 import os
@@ -8,9 +8,11 @@ import random
 import core
 from core import LeanDriver, err_kind, canon
 import lib_c01 as L
+import lib_c01t as T
 
 ID = "C01"
-GENERATORS = []
+from gen import serial as gen_serial
+GENERATORS = [gen_serial.generate]
 LEAN_MODULES = ["FimVerif.Proofs.C01"]
 P = "FimVerif.C01."
 THEOREMS = [P + t for t in (
@@ -21,25 +23,46 @@ THEOREMS = [P + t for t in (
     "copy_renaming_injective",
     "import_frame_string", "import_frame_direct", "labels_markup", "classKey_spec",
     "mixed_graph_ids_rejected", "iter_idem", "iterFrom_map",
+    # Topology level (load plan generated from Topology.load / AdvertizedTopology.load)
+    "load_own_serialization", "load_new_id", "load_frame", "validates_after_import_direct", "load_validates",
+    "dload_own_serialization", "dload_new_id", "dload_frame",
+    # the disjoint store's round trip
+    "dreadDoc_serialize", "droundtrip_import_direct", "droundtrip_import_string", "droundtrip_import_string_counterexample",
+    "dimport_string_present", "dimport_frame_string", "dimport_frame_direct",
+    "enumerate_fixpoint", "dreserialize_stable_direct",
+    "dStoreInv_empty", "dsession_invariant", "dserialize_docWF", "droundtrip_after_session",
+    # whole sessions
+    "storeInv_empty", "storeInv_step", "session_invariant", "serialize_docWF", "roundtrip_after_session",
+    # ties to the generated tables
+    "repo_plans_safe", "load_safe", "load_safe_error", "load_cases", "validates_after_import_repo", "noReserved_iff", "serial_names_tie",
+    "sharedFirst_eval", "disjointFirst_eval",
 )]
 TRUSTED_BASE = [
     "Model/GraphML.lean is a hand mirror of serialize_graph / extract_graph / add_graph / add_graph_direct / get_graph_id / the four "
     "import entry points and of networkx generate_graphml (typing, key allocation), read_graphml (typing), node_link_data / "
-    "node_link_graph, Graph.edges() iteration order, convert_node_labels_to_integers; tied to the code only by the correspondence",
+    "node_link_graph, Graph.edges() iteration order, convert_node_labels_to_integers; tied to the code by the correspondence. "
+    "Regenerated from the code on every run (gen/serial.py -> Generated/Serial.lean) and used by the model: the node label prefix, "
+    "the three reserved node-link keys, first_label of both stores, the initial start_id, JSON_PROPERTY_NAMES",
+    "Topology.load / AdvertizedTopology.load: the *plan* (entry point per argument shape, program order of import / rebind / "
+    "remember / delete_graph and its ids-differ guard) is extracted from the source by gen/serial.py and interpreted by "
+    "Model/Serial.lean; the meaning of the individual steps is hand-written and tied by the Topology-level session correspondence "
+    "(tload / tctor / tclone / tabcclone / tdelete / tserializefile / enumerate requests, store dump after every request). "
+    "Statements of load that touch neither self, the imported graph nor a remembered model are ignored by the extractor",
     "character level (XML / JSON escaping and parsing inside ElementTree, lxml, json; str(v), int(text), float(text), "
-    "convert_bool) is third-party and NOT modelled: data payloads are typed values in the model; fidelity of every character is "
-    "established only differentially with the adversarial string grammar whose classes are listed in the oracle histogram",
-    "format sniffing (_read_from_file tries json then graphml) is modelled at document level: the harness tells the driver which "
-    "format a text is after checking json.loads succeeds exactly on the JSON texts",
+    "convert_bool; the encoding / newline handling of open(file_name, 'w') in Topology.serialize) is third-party and NOT modelled: "
+    "data payloads are typed values in the model; fidelity of every character is established only differentially with the "
+    "adversarial string grammar whose classes are listed in the oracle histogram",
+    "format sniffing (_read_from_file tries READ_FORMATS in order) is modelled at document level: the harness tells the driver which "
+    "format a text is after checking json.loads succeeds exactly on the JSON texts; serial_names_tie pins JSON-first",
     "the reader models are exact for simple documents only (distinct node ids, declared endpoints, no parallel edges); the "
-    "harness asserts this for every document it feeds",
+    "harness asserts this for every document it feeds; DocWF is the same condition in the theorems, serialize_docWF / "
+    "dserialize_docWF prove it for every text the library writes",
     "the store is loaded into the driver as graphs.nodes(data=True) / graphs.edges(data=True); the model's edge list is a global "
     "insertion order, and loading the iteration order instead is behaviourally equivalent for extraction (checked by the whole-store "
     "dump comparison after every import)",
-    "the disjoint store (NetworkXGraphStorageDisjoint: add_graph skip-if-present, add_graph_direct, defaultdict extraction, per-graph "
-    "numbering from 1) and validate_graph (shared store; json.loads verdicts passed in by the harness, JSON_PROPERTY_NAMES read from the "
-    "repo each run) are hand mirrors tied by the correspondence; the Lean theorems are stated for the shared store, the disjoint "
-    "flavour's round trip is differential only",
+    "validate_graph is modelled for the shared store only (json.loads verdicts passed in by the harness)",
+    "fresh uuids (the model id of a new Topology, NodeIDs handed out by enumerate_graph_nodes) are outside the model: the harness "
+    "records the constructor's uuid and passes it to the driver; enumerate is exercised only on texts whose nodes have NodeIDs",
     "Python == between GraphID values is modelled by structural equality (1 == True == 1.0 coincidences are not generated)",
 ]
 ASSUMPTIONS = [
@@ -48,12 +71,16 @@ ASSUMPTIONS = [
     "rejected by GraphML and appear only in the malformed stream)",
     "text is XML-legal (no C0 controls other than tab / newline, no surrogates, no U+FFFE/FFFF); U+000D only in the deterministic "
     "known-finding case",
-    "the store satisfies its invariant (internal ids distinct and below start_id); graphs are imported into a store reached "
-    "through the library's own calls",
+    "the store invariant (internal ids distinct and below start_id, edges between stored nodes) is no longer assumed for stores "
+    "reached through imports / loads / clones / deletions of simple texts (session_invariant, dsession_invariant); for the other "
+    "library calls (add / update / delete of nodes and links) it is the `edit` side condition of those theorems (C04/C05 territory)",
 ]
 RULE = ("case = (store with 1-3 graphs: raw property graphs built by add_node/add_link/update with colliding keys, ints, bools and "
-        "adversarial strings, or API-built Experiment/Substrate topologies) x format x entry point x id policy; non-trivial = graph "
-        "has >= 1 edge and >= 1 value outside [A-Za-z0-9]; distinct by canonical snapshot hash x format x entry x policy")
+        "adversarial strings, or API-built Experiment/Substrate topologies) x format x entry point x id policy; plus Topology-level "
+        "sessions (1-3 Topology objects on one store: serialize to string/file, edit, load into the same / an aliasing / another / a "
+        "fresh object with or without new_graph_id, constructors, clone_graph (nx and ABC), delete_graph, importer calls on files "
+        "written by Topology.serialize, enumerate_graph_nodes[_to_string]); non-trivial = graph has >= 1 edge and >= 1 value outside "
+        "[A-Za-z0-9]; distinct by canonical snapshot hash x format x entry x policy (x op x store for sessions)")
 
 IMPORT_PLAN = [("string", "new"), ("string", "keep"), ("file", "new"), ("file", "keep"), ("string_direct", "keep"), ("file_direct", "keep")]
 
@@ -120,7 +147,7 @@ def validate_step(im, gid, lines, expect, res, meta):
                 except _j.JSONDecodeError:
                     pass
     r = attempt(lambda: im.graph(gid).validate_graph())
-    lines.append(L.dumps(["validate", L.val(gid), names, sorted(oks)]))
+    lines.append(L.dumps(["validate", L.val(gid), None, sorted(oks)]))      # names: the driver uses Gen.Serial.jsonPropertyNames
     expect.append((r, dict(meta, op="validate")))
     res.count("op:validate:" + ("ok" if r[0] == "ok" else r[1]))
 
@@ -344,6 +371,116 @@ def malformed_steps(im, gids, texts, rng, res, lines, expect, sc):
                 expect.append((["ok", im.dump()], {"op": "dump-after-serialize-malformed", "variant": v}))
 
 
+def run_session_corr(sess, res, lines, expect):
+    """a Topology-level session on the code and, request by request, on the driver (the store is re-synchronised
+    before every modelled request, its dump compared after it)"""
+    n0 = len(lines)
+    run = None
+    try:
+        run = T.Runner(sess, quiet=True)
+        im = run.im
+        flav = "d" if im.disjoint else "s"
+        px = im.px
+
+        def sync():
+            lines.append(L.dumps(im.load_op()))
+            expect.append((["ok", None], {"op": "load"}))
+
+        def dump(meta):
+            lines.append(L.dumps([px + "dump"]))
+            expect.append((["ok", im.dump()], dict(meta, op="dump-after-" + meta["op"])))
+        state = {"pre": im.load_op()}
+
+        def obs(ev):
+            op, sp = ev["op"], ev["spec"]
+            meta = {"op": "session-" + op, "step": ev["i"], "session": dict(sess, ops=sess["ops"][:ev["i"] + 1])}
+            pre, state["pre"] = state["pre"], im.load_op()
+            if op in ("new", "edit"):
+                return
+            lines.append(L.dumps(pre))
+            expect.append((["ok", None], {"op": "load"}))
+            kind = "advertized" if run.kinds.get(sp.get("h")) == "adv" or sp.get("kind") == "adv" else "topology"
+            if op == "save":
+                s = ev["slot"]
+                r = ev["result"]
+                if r[0] == "ok":
+                    r, _ = observe_doc(s.text, s.fmt)
+                if sp["via"] == "file" and not im.disjoint:
+                    lines.append(L.dumps(["tserializefile", L.val(s.gid), s.fmt]))
+                else:
+                    lines.append(L.dumps([px + "serialize", L.val(s.gid), s.fmt]))
+                expect.append((r, meta))
+                res.count("op:session-serialize:%s:%s:%s" % (px or "s", s.fmt, sp["via"]))
+                dump(meta)
+                return
+            if op in ("load", "ctor", "imp"):
+                s = ev["slot"]
+                ob, doc = observe_doc(ev["text"], s.fmt)
+                if ob[0] != "ok" or doc is None:
+                    lines.pop(), expect.pop()
+                    return
+                if op == "load":
+                    shape = "file" if sp["via"] == "file" else ("string_new" if sp.get("newid") else "string")
+                    lines.append(L.dumps(["tload", flav, kind, L.val(ev["held_before"]), shape, doc, L.val(sp.get("newid") or "")]))
+                    expect.append((["ok", [ev["result"], L.val(ev["held_after"])]], meta))
+                    res.count("op:tload:%s:%s:%s:%s%s" % (flav, kind, s.fmt, shape, ":damaged" if sp.get("damage") else ""))
+                elif op == "ctor":
+                    if ev.get("fresh") is None:
+                        lines.pop(), expect.pop()
+                        return
+                    lines.append(L.dumps(["tctor", flav, kind, L.val(ev["fresh"]), "file" if sp["via"] == "file" else "string", doc]))
+                    expect.append((ev["result"], meta))
+                    res.count("op:tctor:%s:%s:%s:%s" % (flav, kind, s.fmt, sp["via"]))
+                else:
+                    lines.append(L.dumps([px + "import", sp["entry"], doc, L.val(sp["gid"])]))
+                    expect.append((ev["result"], meta))
+                    res.count("op:session-import:%s:%s:%s" % (px or "s", s.fmt, sp["entry"]))
+                if ev["result"][0] == "err":
+                    res.count("err:session:" + ev["result"][1])
+                dump(meta)
+                if s.snap is not None and s.snap["edges"]:
+                    res.nontrivial.add("session/%s/%s/%s/%s" % (core.sha(canon(_strip(s.snap))), op, s.fmt, flav))
+                return
+            if op == "enum":
+                lines.pop(), expect.pop()       # the store is not involved
+                if ev["result"][0] == "skip":
+                    return
+                ob, doc = observe_doc(ev["text"], "graphml")
+                if ob[0] != "ok" or doc is None:
+                    return
+                r = ev["result"]
+                if r[0] == "ok":
+                    r, _ = observe_doc(ev["out"].text, "graphml")
+                lines.append(L.dumps(["enumerate", doc, sp["to"] == "file"]))
+                expect.append((r, meta))
+                res.count("op:enumerate:%s" % sp["to"])
+                return
+            if op == "clone":
+                lines.append(L.dumps(["tabcclone" if sp.get("abc") else "tclone", flav, L.val(ev["src"]), L.val(sp["newid"])]))
+                r = ev["result"]
+                expect.append(((["ok", None] if (r[0] == "ok" and not sp.get("abc")) else r), meta))
+                res.count("op:%s:%s" % ("tabcclone" if sp.get("abc") else "tclone", flav))
+                dump(meta)
+                return
+            if op == "delete":
+                lines.append(L.dumps(["tdelete", flav, L.val(ev["src"])]))
+                expect.append((ev["result"], meta))
+                res.count("op:tdelete:%s" % flav)
+                dump(meta)
+        run.run(obs)
+    except core.Infra:
+        raise
+    except Exception as e:
+        del lines[n0:]
+        del expect[n0:]
+        import traceback
+        res.disagreements.append({"case": {"op": "session", "session": sess}, "impl": "exception while driving the implementation: %s: %s | %s" % (
+            type(e).__name__, str(e)[:300], traceback.format_exc()[-600:]), "model": None})
+    finally:
+        if run is not None:
+            run.close()
+
+
 def correspondence(ctx, res):
     rng = ctx.sub_rng("corr")
     n = ctx.scale(60, 600)
@@ -356,6 +493,13 @@ def correspondence(ctx, res):
     for i in range(n):
         sc = make_scenario(rng, ctx, i, topo_share=0.25)
         run_scenario_corr(sc, res, lines, expect, malformed_rng=rng if i % 4 == 0 else None)
+    for c in corpus_cases(sessions=True):
+        run_session_corr(c["session"], res, lines, expect)
+    for sess in T.corner_sessions(ctx.seed):
+        run_session_corr(sess, res, lines, expect)
+    srng = ctx.sub_rng("corr-sessions")
+    for i in range(ctx.scale(40, 400)):
+        run_session_corr(T.gen_session(srng, "c/%s/%d" % (ctx.seed, i), ctx.thorough), res, lines, expect)
     model = LeanDriver("C01").run(lines)
     for (exp, meta), m in zip(expect, model):
         res.evaluations += 1
@@ -378,13 +522,15 @@ def _short(x, n=1500):
 # --------------------------------------------------------------------------
 # oracle: the property itself on the implementation
 
-def corpus_cases():
+def corpus_cases(sessions=False):
+    """raw-graph cases ({"spec": …}) or, with sessions=True, the Topology-level session cases ({"session": …})"""
     out = []
     for p in sorted(glob.glob(os.path.join(core.CORPUS_DIR, "C01", "*.json"))):
         with open(p) as f:
             c = json.load(f)
         c["file"] = os.path.basename(p)
-        out.append(c)
+        if ("session" in c) == sessions:
+            out.append(c)
     return out
 
 
@@ -558,6 +704,227 @@ def _check_case(case, res, sink=None):
         im.close()
 
 
+# --------------------------------------------------------------------------
+# Topology-level sessions (Topology.serialize / load, constructors, clone_graph, delete_graph)
+
+def _strip(s):
+    return None if s is None else dict(s, graph_ids=None)
+
+
+class SessionOracle:
+    """the property on one session: after load / constructor / clone / importer call the model found under the
+    resulting graph id is the one that was serialized (node ids, classes, property values, edges), the graph id
+    is the kept / the requested one, serializing again gives the same content, validation still passes, and no
+    graph held by another topology under another id changed"""
+
+    def __init__(self, sess, res):
+        self.sess, self.res = sess, res
+        self.flav = "disjoint" if sess.get("disjoint") else "shared"
+        self.failed_at = None
+
+    def bad(self, ev, sig, what, **kw):
+        case = {"session": dict(self.sess, ops=self.sess["ops"][:ev["i"] + 1])}
+        self.res.violation("C01:topology:%s:%s" % (self.flav, sig), what, case, **kw)
+        if self.failed_at is None:
+            self.failed_at = ev["i"]
+
+    def relation(self, run, ev, target):
+        """how the loading topology stands to the graph id the text carries"""
+        h = ev["spec"].get("h")
+        if ev["op"] == "load" and ev.get("held_before") == target:
+            return "same-object-holds-id"
+        if any(g == target for hh, g in ev["before_ids"].items() if hh != h):
+            return "other-object-holds-id"
+        return "id-free" if ev["pre"].get(target) is None else "id-in-store"
+
+    def __call__(self, run, ev):
+        op = ev["op"]
+        if op == "save":
+            s = ev["slot"]
+            if ev["result"][0] != "ok" or s.text is None:
+                if s.snap is not None:
+                    self.bad(ev, "serialize:%s:%s:%s" % (s.fmt, ev["spec"]["via"], ev["result"][1] if ev["result"][0] == "err" else "none"),
+                             "Topology.serialize of a held model failed: %s" % ev.get("exc"))
+                return
+            if ev["spec"]["via"] == "file" and ev.get("returned") is not None:
+                self.bad(ev, "serialize:file:returns-text", "serialize(file_name=...) returned something")
+            try:
+                s.doc = L.parse_text(s.text)
+            except Exception as e:
+                s.doc = None
+                self.bad(ev, "serialize:%s:text-unreadable" % s.fmt, "the serialized text cannot be read: %s" % e, observed=s.text[:300])
+            if s.fmt == "graphml" and s.doc is not None and L.markup_errors(s.doc):
+                self.bad(ev, "serialize:graphml:label-markup", "node/edge element without the label markup", observed=L.markup_errors(s.doc)[:3])
+            return
+        if op in ("load", "ctor", "imp"):
+            self.check_import(run, ev)
+        elif op == "enum":
+            self.check_enum(run, ev)
+        elif op == "clone":
+            self.check_clone(run, ev)
+        elif op == "delete":
+            if run.snap(ev["src"]) is not None:
+                self.bad(ev, "delete:graph-still-there", "delete_graph left the graph in the store")
+            self.frame(run, ev, {ev["src"]}, "delete")
+
+    def frame(self, run, ev, touched, what):
+        """graphs held by (other) topologies under other ids are untouched"""
+        h = ev["spec"].get("h")
+        for hh, g in ev["before_ids"].items():
+            # the model the loading topology held before is its own business (load_frame has the same exception)
+            if g in touched or (ev["op"] == "load" and (hh == h or g == ev.get("held_before"))):
+                continue
+            if g in ev["pre"] and run.snap(g) != ev["pre"][g]:
+                self.bad(ev, "%s:other-topology-touched" % what, "%s changed the model held by another topology (graph %s)" % (what, g),
+                         expected=_short(ev["pre"][g], 400), observed=_short(run.snap(g), 400))
+
+    def check_import(self, run, ev):
+        op, sp, s = ev["op"], ev["spec"], ev["slot"]
+        if s.text is None or s.snap is None:
+            return
+        entry = sp.get("entry") or ("file" if sp["via"] == "file" else "string")
+        direct = (op == "imp" and entry.endswith("direct")) or (op != "imp" and not sp.get("newid"))
+        target = s.gid if direct else (sp.get("newid") or sp.get("gid"))
+        rel = self.relation(run, ev, target)
+        tag = "%s:%s:%s:%s" % (op, s.fmt, entry if op == "imp" else sp["via"] + ("+newid" if sp.get("newid") else ""), rel)
+        self.res.count("session:" + tag)
+        if sp.get("damage"):
+            # malformed text: the call must fail or succeed without touching other topologies; nothing more is claimed
+            self.frame(run, ev, {target, s.gid}, op)
+            return
+        if ev["result"][0] != "ok":
+            self.bad(ev, "%s:raises:%s" % (tag, ev["result"][1]), "%s of the library's own text raised %s" % (op, ev.get("exc")))
+            return
+        got = ev["result"][1][1]
+        if got != target:
+            self.bad(ev, "%s:graph-id" % tag, "the model is held under id %r afterwards, expected %r" % (got, target))
+            return
+        after = run.snap(got)
+        want = s.snap
+        if _strip(after) != _strip(want):
+            pre = ev["pre"].get(target)
+            if self.flav == "disjoint" and not direct and pre is not None and after == pre:
+                self.res.violation("C01:disjoint:add_graph:keeps-edited-model-instead-of-saved-text",
+                                   "import under an id that is still held is skipped on the disjoint store",
+                                   {"session": dict(self.sess, ops=self.sess["ops"][:ev["i"] + 1])})
+            else:
+                sig, detail = diff_signature(s.fmt, want, after)
+                self.bad(ev, "%s:%s" % (tag, (sig or "content-differs").split(":", 1)[-1]),
+                         "the model found after %s differs from the one that was serialized" % op,
+                         expected=_short(want, 500), observed=_short(detail if detail is not None else after, 500))
+            return
+        if after["graph_ids"] != [json.dumps(["str", got])]:
+            self.bad(ev, "%s:graph-id-stamp" % tag, "nodes carry GraphIDs %s" % after["graph_ids"])
+        # serializing again gives the same content
+        try:
+            t2 = run.im.serialize(got, s.fmt)
+            if getattr(s, "doc", None) is not None and L.doc_content(L.parse_text(t2), markup=False) != L.doc_content(s.doc, markup=False):
+                self.bad(ev, "%s:reserialize-differs" % tag, "serializing the loaded model gives different content")
+        except Exception as e:
+            self.bad(ev, "%s:reserialize-raises:%s" % (tag, err_kind(e)), "serializing the loaded model raised %s" % e)
+        if s.valid and all(ev.get("pre_valid", {}).values()) and not run.validates(got):
+            self.bad(ev, "%s:validate-after-import" % tag, "validate_graph() fails on the loaded model")
+        if op in ("load", "ctor") and s.api is not None and run.kinds.get(sp["h"]) == s.kind:
+            v = T.api_view(run.topos[sp["h"]], s.kind)
+            if v != s.api:
+                self.bad(ev, "%s:api-view" % tag, "the topology API shows different elements after %s" % op,
+                         expected=_short(s.api, 400), observed=_short(v, 400))
+        self.frame(run, ev, {target}, op)
+        if s.snap["edges"]:
+            self.res.nontrivial.add("session/%s/%s" % (core.sha(canon(_strip(s.snap))), tag))
+
+    def check_enum(self, run, ev):
+        """enumerate_graph_nodes[_to_string] on a text the library wrote: every node has its NodeID already, so the
+        re-written text carries the same content (and, for the file variant, the label markup)"""
+        s, sp = ev["slot"], ev["spec"]
+        if ev["result"][0] == "skip" or s.snap is None:
+            return
+        tag = "enumerate:%s" % sp["to"]
+        self.res.count("session:" + tag)
+        if ev["result"][0] != "ok":
+            self.bad(ev, "%s:raises:%s" % (tag, ev["result"][1]), "enumerate_graph_nodes on the library's own GraphML raised %s" % ev.get("exc"))
+            return
+        out = ev["out"]
+        try:
+            out.doc = L.parse_text(out.text)
+        except Exception as e:
+            out.doc = None
+            self.bad(ev, "%s:text-unreadable" % tag, "the re-written text cannot be read: %s" % e, observed=out.text[:300])
+            return
+        if getattr(s, "doc", None) is None:
+            try:
+                s.doc = L.parse_text(s.text)
+            except Exception:
+                return
+        if L.doc_content(out.doc, markup=False) != L.doc_content(s.doc, markup=False):
+            self.bad(ev, "%s:content-differs" % tag, "the re-written GraphML carries different content",
+                     expected=_short(L.doc_content(s.doc, markup=False), 500), observed=_short(L.doc_content(out.doc, markup=False), 500))
+        if sp["to"] == "file" and L.markup_errors(out.doc):
+            self.bad(ev, "%s:label-markup" % tag, "GraphML.nx_write_graphml wrote an element without the label markup",
+                     observed=L.markup_errors(out.doc)[:3])
+
+    def check_clone(self, run, ev):
+        sp = ev["spec"]
+        tag = "clone:%s" % ("abc" if sp.get("abc") else "nx")
+        src = ev["pre"].get(ev["src"])
+        self.res.count("session:" + tag)
+        if src is None:
+            return
+        if ev["result"][0] != "ok":
+            self.bad(ev, "%s:raises:%s" % (tag, ev["result"][1]), "clone_graph of a held model raised %s" % ev.get("exc"))
+            return
+        pre = ev["pre"].get(sp["newid"])
+        after = run.snap(sp["newid"])
+        if _strip(after) != _strip(src):
+            if self.flav == "disjoint" and pre is not None and after == pre:
+                self.res.violation("C01:disjoint:add_graph:keeps-edited-model-instead-of-saved-text",
+                                   "clone under an id that is still held is skipped on the disjoint store",
+                                   {"session": dict(self.sess, ops=self.sess["ops"][:ev["i"] + 1])})
+            else:
+                sig, detail = diff_signature("graphml" if sp.get("abc") else "copy", src, after)
+                self.bad(ev, "%s:%s" % (tag, (sig or "content-differs").split(":", 1)[-1]), "the clone differs from the model it was taken from",
+                         expected=_short(src, 500), observed=_short(detail if detail is not None else after, 500))
+        self.frame(run, ev, {sp["newid"]}, "clone")
+
+
+def check_session(sess, res):
+    """never raises (see check_case)"""
+    run = None
+    try:
+        run = T.Runner(sess)
+        orc = SessionOracle(sess, res)
+        run.run(lambda ev: orc(run, ev))
+    except core.Infra:
+        raise
+    except Exception as e:
+        import traceback
+        res.violation("C01:topology:%s:unexpected-exception:%s" % ("disjoint" if sess.get("disjoint") else "shared", err_kind(e)),
+                      "running the session raised %s: %s" % (type(e).__name__, str(e)[:300]), {"session": sess},
+                      observed=traceback.format_exc()[-800:])
+    finally:
+        if run is not None:
+            run.close()
+
+
+def session_oracle(ctx, res, n=None):
+    rng = ctx.sub_rng("oracle-sessions")
+    for c in corpus_cases(sessions=True):
+        res.evaluations += 1
+        res.count("corpus:" + c["file"])
+        check_session(c["session"], res)
+    for sess in T.corner_sessions(ctx.seed):
+        res.evaluations += 1
+        res.count("session-shape:%s:%s" % (sess["tag"], "disjoint" if sess["disjoint"] else "shared"))
+        check_session(sess, res)
+    for i in range(n or ctx.scale(60, 600)):
+        sess = T.gen_session(rng, "o/%s/%d" % (ctx.seed, i), ctx.thorough)
+        res.evaluations += 1
+        res.count("session-shape:random:%s" % ("disjoint" if sess["disjoint"] else "shared"))
+        for o in sess["ops"]:
+            res.count("session-op:" + o["op"])
+        check_session(sess, res)
+
+
 def oracle(ctx, res, n=None):
     rng = ctx.sub_rng("oracle")
     # 1. deterministic corpus cases, all formats and entry points
@@ -607,6 +974,7 @@ def oracle(ctx, res, n=None):
                         res.count("value:" + type(v).__name__)
     res.sample({"oracle": "snapshot before == after import, label markup by lxml, re-serialisation content, validate_graph, other graphs untouched",
                 "last_case": _short({"fmt": fmt, "entry": entry, "policy": policy}, 200)})
+    session_oracle(ctx, res, n=None if n is None else max(60, n // 5))
 
 
 def search(ctx, res, broken):
@@ -621,6 +989,14 @@ def search(ctx, res, broken):
         if link != "correspondence" or not isinstance(detail, list):
             continue
         for d in list(detail) + list(getattr(search, "all_disagreements", []))[:40]:
+            sess = (d.get("case") or {}).get("session")
+            if sess:
+                key = canon(sess)
+                if key not in seen:
+                    seen.add(key)
+                    res.evaluations += 1
+                    check_session(sess, res)
+                continue
             sc = (d.get("case") or {}).get("scenario")
             if not sc:
                 continue
@@ -638,12 +1014,19 @@ def search(ctx, res, broken):
             if fresh() and len(seen) >= 3:
                 break
     if not fresh():
+        # any other broken link (extraction, build, audit): the Topology-level sessions first (small, every shape), then
+        # the general generators with a larger budget
+        session_oracle(ctx, res, n=ctx.scale(300, 1500))
+    if not fresh():
         oracle(ctx, res, n=ctx.scale(1500, 6000))
 
 
 def replay(ctx, payload):
     r = core.Result()
-    check_case(payload["case"], r)
+    if "session" in payload["case"]:
+        check_session(payload["case"]["session"], r)
+    else:
+        check_case(payload["case"], r)
     for v in r.violations:
         print("  ", v["signature"], v["what"])
     known = {k["signature"] for k in core.load_known("C01") if k.get("status") == "known"}
